@@ -151,7 +151,7 @@ def info(tier):
         "name order) and random problems (generated objective + 0-3 generated relations); Problem.variables / n_variables / "
         "get_bounds / domains compared with the recipe-level syntactic set, an independent natural sort and the declarations; "
         "distinct = canonical problem hashes" % len(shortcut_cases()),
-        "required_cells": sorted({c for c, _, _, _ in shortcut_cases()}) + ["name-stress", "random", "deep-objective", "deep-objective-exclusive-vector", "history", "shortcut:element-bound-edited", "names:re-declared-with-another-domain", "shared-objective-object", "huge-vector-order"],
+        "required_cells": sorted({c for c, _, _, _ in shortcut_cases()}) + ["name-stress", "random", "deep-objective", "deep-objective-exclusive-vector", "history", "shortcut:element-bound-edited", "names:re-declared-with-another-domain", "shared-objective-object", "huge-vector-order", "history:rejected-constraint-list", "history:constraints-without-an-objective"],
         "assumptions": ["'mentioned' = syntactic occurrence in the recipe (x*0 still mentions x)"],
     }
 
@@ -384,7 +384,28 @@ def run_history(rec, rng):
     for step in range(rng.randint(3, 8)):
         r = rng.random()
         try:
-            if r < 0.45 or cur_obj is None:
+            if r < 0.12 and len(steps) >= 1:
+                # subject_to([valid, valid, <not a constraint>]) raises; the caller catches it and goes on: whatever part of the list
+                # the problem kept is part of its definition now
+                rels = [["rel", rng.choice(["<=", ">="]), g.scalar(rng.randint(0, 2)), g.const(raw=True), "direct"] for _ in range(2)]
+                cs = [b.rel(r_) for r_ in rels]
+                if any(isinstance(c_, list) for c_ in cs):
+                    continue
+                before = len(P.constraints)
+                try:
+                    P.subject_to(cs + ["not a constraint"])
+                    rec.violation("invalid-list-entry-accepted", {"steps": steps})
+                    return
+                except Exception:
+                    pass
+                kept = len(P.constraints) - before
+                if not 0 <= kept <= 2:
+                    rec.violation("unexpected-number-of-constraints-after-a-rejected-list", {"steps": steps, "kept": kept})
+                    return
+                cur_cons.extend(rels[:kept])
+                steps.append(f"subject_to([2 valid, 1 invalid]) raised, kept {kept}")
+                rec.cmp(1, "history:rejected-constraint-list")
+            elif r < 0.45 or (cur_obj is None and rng.random() < 0.5):
                 node = g.scalar(rng.randint(0, 2))
                 if node[0] in ("const", "raw"):
                     node = g.leaf()
@@ -401,6 +422,8 @@ def run_history(rec, rng):
                 steps.append("subject_to:" + A.render(rel)[:60])
             else:
                 steps.append("read")
+            if cur_obj is None and cur_cons:
+                rec.cmp(1, "history:constraints-without-an-objective")
         except Exception as ex:
             rec.events["history-build-unsupported:" + type(ex).__name__] += 1
             return
